@@ -20,7 +20,14 @@ fuzz_target!(|data: &[u8]| {
     let Ok(text) = std::str::from_utf8(data) else { return };
     let mut ctx = fw::Ctx::bare("C09");
     if let Err(f) = c09::check_text(&mut ctx, text, "libfuzzer") {
+        // open known findings are excluded (the campaign would otherwise end at the first rediscovery)
+        static KNOWN: std::sync::OnceLock<Vec<String>> = std::sync::OnceLock::new();
+        let known = KNOWN.get_or_init(|| fw::load_known().into_iter().filter(|k| k.property == "C09" && k.status == "open").map(|k| k.signature).collect());
+        if known.contains(&f.sig) {
+            return;
+        }
         eprintln!("PV-VIOLATION {} {}", f.sig, f.msg);
+        eprintln!("PV-REPLAY-JSON {}", serde_json::json!({"property": "C09", "signature": f.sig, "message": f.msg, "case": f.case}));
         std::process::abort();
     }
 });
